@@ -4,16 +4,17 @@
 # test-suite passes with it, the demonstration fails with it and passes without it.
 # Writes /verif/seeded/<PROP>-<n>/{patch.diff,demo.rs,meta.json (partial: confirmation part)}.
 WT="$1"; P="$2"; N="$3"; EXTRA="$4"
+CR="${SEED_CRATE:-trustfall_core}"; SUITE_ARGS="${SEED_SUITE_ARGS:---lib}"; export CARGO_NET_OFFLINE=true
 export CARGO_TARGET_DIR="$WT/target"
 D=/verif/seeded/$P-$N; mkdir -p "$D"
 cp "$WT/seed_${P}_$N.diff" "$D/patch.diff"; cp "$WT/demo_${P}_$N.rs" "$D/demo.rs"
-cd "$WT" && git checkout -q -- . && mkdir -p trustfall_core/tests && cp "$D/demo.rs" trustfall_core/tests/demo_${P}_$N.rs
+cd "$WT" && git checkout -q -- . && mkdir -p $CR/tests && cp "$D/demo.rs" $CR/tests/demo_${P}_$N.rs
 git apply "$D/patch.diff" || { echo "patch does not apply"; exit 2; }
-cargo test -p trustfall_core --offline $EXTRA --test demo_${P}_$N > "$D/demo_with.log" 2>&1; RW=$?
-cargo test -p trustfall_core --offline --lib > "$D/suite_with.log" 2>&1; RS=$?
+cargo test -p $CR --offline $EXTRA --test demo_${P}_$N > "$D/demo_with.log" 2>&1; RW=$?
+mv $CR/tests/demo_${P}_$N.rs /tmp/.demo_${P}_$N.rs; cargo test -p $CR --offline $SUITE_ARGS > "$D/suite_with.log" 2>&1; RS=$?; mv /tmp/.demo_${P}_$N.rs $CR/tests/demo_${P}_$N.rs
 git apply -R "$D/patch.diff"
-cargo test -p trustfall_core --offline $EXTRA --test demo_${P}_$N > "$D/demo_without.log" 2>&1; RO=$?
-rm -f trustfall_core/tests/demo_${P}_$N.rs; rmdir trustfall_core/tests 2>/dev/null
+cargo test -p $CR --offline $EXTRA --test demo_${P}_$N > "$D/demo_without.log" 2>&1; RO=$?
+rm -f $CR/tests/demo_${P}_$N.rs; rmdir $CR/tests 2>/dev/null
 SUITE=$(grep -E "^test result" "$D/suite_with.log" | head -1)
 echo "{\"demo_fails_with_change\": $([ $RW -ne 0 ] && echo true || echo false), \"suite_passes_with_change\": $([ $RS -eq 0 ] && echo true || echo false), \"demo_passes_without_change\": $([ $RO -eq 0 ] && echo true || echo false), \"suite_line\": \"$SUITE\"}" > "$D/confirm.json"
 cat "$D/confirm.json"
